@@ -337,8 +337,14 @@ def parse_shape(reply):
     return [tuple(int(x) for x in g.split(":")) for g in t[2:]]
 
 
-def mutate_text(r, text, k):
+JOINERS = [chr(0x200D), chr(0x200C), " ", chr(0x25CC)]
+
+
+def mutate_text(r, text, k, alphabet=None):
     t = list(text)
+    if k == 7 and alphabet:   # random string over everything the corpus ever shapes with this font, plus joiners / space
+        pool = alphabet + JOINERS
+        return "".join(r.choice(pool) for _ in range(r.range(2, 8)))
     if k == 0: return text
     if k == 1: return "".join(r.shuffle(t))
     if k == 2: return "".join(t + t[: r.below(len(t) + 1)])              # repeated
@@ -376,9 +382,10 @@ def shape_requests(r, ncases, ntexts, full_grid):
     groups = []
     for fid, reg, cs in corpus.font_groups(cases):
         reqs = []
+        alphabet = sorted(set("".join(c.text for c in cs)))
         for c in cs:
             for ti in range(ntexts):
-                text = mutate_text(r, c.text, 0 if ti == 0 else r.range(1, 7))[:48]
+                text = mutate_text(r, c.text, 0 if ti == 0 else r.range(1, 8), alphabet)[:48]
                 if not text:
                     continue
                 cl = input_clusters(r, len(text), 0 if ti == 0 else r.below(4))
@@ -390,6 +397,45 @@ def shape_requests(r, ncases, ntexts, full_grid):
                     ln = c.shape_line(fid, text=text, clusters=cl, dir=d or (c.dir if ti == 0 else None), level=lv,
                                       flags=flags, feats=[KERN_OFF] if ko else [])
                     reqs.append((ln, (c.name, cl, d or (c.dir if ti == 0 else None), lv, ko)))
+        groups.append((reg, reqs))
+    return groups
+
+
+def block_pool(alphabet):
+    """every assigned character of the 128-blocks the corpus texts of a font touch (non-ASCII blocks), plus joiners"""
+    import unicodedata
+    blocks = sorted({ord(ch) & ~0x7F for ch in alphabet if ord(ch) >= 0x300 and ord(ch) < 0x20000})
+    pool = []
+    for b in blocks[:6]:
+        pool += [chr(cp) for cp in range(b, b + 0x80) if unicodedata.category(chr(cp)) not in ("Cn", "Cs", "Co")]
+    return pool
+
+
+def script_requests(r, per_font, only_fonts=None):
+    """random short strings over the Unicode blocks of each corpus font's texts (the reordering shapers' repertoire,
+    ill-formed sequences included), x directions x levels 0/1"""
+    groups = []
+    for fid, reg, cs in corpus.font_groups(corpus.load()):
+        if only_fonts and not any(x in reg for x in only_fonts):
+            continue
+        alphabet = sorted(set("".join(c.text for c in cs)))
+        pool = block_pool(alphabet)
+        if not pool:
+            continue
+        marks = [ch for ch in pool if __import__("unicodedata").category(ch) in ("Mn", "Mc", "Cf")] or pool
+        c = cs[0]
+        reqs = []
+        for _ in range(per_font):
+            n = r.range(2, 8)
+            text = "".join(r.choice(JOINERS) if r.chance(1, 5) else (r.choice(marks) if r.chance(1, 3) else r.choice(pool))
+                           for _ in range(n))
+            cl = input_clusters(r, n, r.choice([0, 0, 1, 3]))
+            d = r.choice(DIRS)
+            lv = r.below(2)
+            flags = r.choice([0, 0, 3, 0x43, 0x10])
+            ko = r.chance(1, 4)
+            ln = c.shape_line(fid, text=text, clusters=cl, dir=d, level=lv, flags=flags, feats=[KERN_OFF] if ko else [])
+            reqs.append((ln, (c.name, cl, d, lv, ko)))
         groups.append((reg, reqs))
     return groups
 
@@ -412,6 +458,21 @@ def check_shape(meta, glyphs):
 
 def shape_search(ctx, shim, r, ncases, ntexts, full_grid):
     groups = shape_requests(r, ncases, ntexts, full_grid)
+    return run_shape_groups(ctx, shim, groups, "shape-clusters",
+                            "corpus (font, text, options) of tests/shaping plus shuffled / repeated / sliced / resampled / rtl-neutral "
+                            "texts and random strings over the font's corpus alphabet, with non-decreasing input clusters (consecutive, "
+                            "gapped, repeated), x {guessed, ltr, rtl, ttb, btt} x levels 0/1/2 x kerning on / kern=0 x buffer flags")
+
+
+def script_search(ctx, shim, r, per_font):
+    groups = script_requests(r, per_font)
+    return run_shape_groups(ctx, shim, groups, "shape-script-random",
+                            "every corpus font whose texts leave ASCII: random strings of 2-8 characters over the Unicode blocks of its "
+                            "corpus texts (marks and joiners over-represented, ill-formed syllables included), random direction / "
+                            "level 0 or 1 / flags / kern=0")
+
+
+def run_shape_groups(ctx, shim, groups, stream, what):
     lines = [[reg] + [q for q, _ in reqs] for reg, reqs in groups]
     outs = vlib.run_groups(shim, lines, timeout=1200)
     total = nontriv = crashed = 0
@@ -432,12 +493,12 @@ def shape_search(ctx, shim, r, ncases, ntexts, full_grid):
                 dist["kern_off"] += 1
                 if meta[2] in ("r", "b"): dist["backward+kern_off"] += 1
             for kind, detail in check_shape(meta, gl):
-                key = (kind, "kern=0" if meta[4] else "kern", meta[2] in ("r", "b"))
+                key = (kind, "kern=0" if meta[4] else "kern", meta[2] in ("r", "b")) if stream == "shape-clusters" else (kind, f"level {meta[3]}")
                 found.setdefault(key, []).append((len(q), reg, q, meta, rep, detail))
     for key, lst in sorted(found.items(), key=lambda kv: str(kv[0])):
         lst.sort(key=lambda x: x[0])
         _, reg, q, meta, rep, detail = lst[0]
-        ctx.violation(f"shape(): output clusters violate C02 ({key[0]}, {key[1]}, {'backward' if key[2] else 'forward/guessed'} direction; "
+        ctx.violation(f"shape(): output clusters violate C02 ({key[0]}, {key[1]}, {('backward' if key[2] else 'forward/guessed') + ' direction' if len(key) > 2 else stream}; "
                       f"{len(lst)} shapings, {len(set(x[1] for x in lst))} fonts): {detail}; input clusters {meta[1]}, "
                       f"output clusters {[g[1] for g in parse_shape(rep)]}",
                       {"stage": "search", "stream": "shape-clusters", "font_line": reg, "request": q, "case": meta[0],
@@ -574,6 +635,7 @@ def run(ctx):
     prim_search(ctx, shim, ctx.rng("prim-search"), ctx.budget(30000, 400000))
     shape_search(ctx, shim, ctx.rng("shape"), ctx.budget(300, 2128), ctx.budget(3, 6), not ctx.quick)
     synth_search(ctx, shim, ctx.rng("synth"), ctx.budget(40, 400))
+    script_search(ctx, shim, ctx.rng("script"), ctx.budget(400, 12000))
 
 
 def replay(ctx, rp):
@@ -587,7 +649,7 @@ def replay(ctx, rp):
         d = check_trace(rp["request"], a)
         print("deviations:", d)
         return 1 if (d or canon(a) != b) else 0
-    if rp.get("stream") == "shape-clusters":
+    if rp.get("stream") in ("shape-clusters", "shape-script-random"):
         o = vlib.run_groups(shim, [[rp["font_line"], rp["request"]]], nproc=1)[0]
         print("font   :", rp["font_line"]); print("request:", rp["request"]); print("reply  :", o[1][:3000])
         gl = parse_shape(o[1])
